@@ -48,7 +48,7 @@ pub fn run(prop: &str, ctx: &mut Ctx) -> bool {
         "C16" => c16::run(ctx),
         "C18" => c18::run(ctx),
         "C17" => { c17::run(ctx); c18::run_multi(ctx); }
-        "C09" => { c09::run(ctx); c20_gpu::run_backing(ctx); }
+        "C09" => { c09::run(ctx); c20_gpu::run_backing(ctx); c20_snd::run_xfer(ctx); }
         "C08" => c08::run(ctx),
         "C20" => { c20_gpu::run(ctx); c20_misc::run(ctx); c20_snd::run(ctx); }
         _ => return false,
